@@ -21,6 +21,7 @@ pub fn profile_presentations() -> Profile {
     p.docs = 0;
     p.optional = 65;
     p.unusual_idents = 15;
+    p.flatten_tower = 15;
     p
 }
 
@@ -79,6 +80,157 @@ fn flatten_closure(m: &Module, idx: usize, out: &mut std::collections::BTreeSet<
     }
 }
 
+
+fn shift_ty(t: &mut TyExpr, pos: usize) {
+    match t {
+        TyExpr::User(i, args) => {
+            if *i >= pos {
+                *i += 1;
+            }
+            args.iter_mut().for_each(|a| shift_ty(a, pos));
+        }
+        TyExpr::Option(x) | TyExpr::Vec(x) | TyExpr::Array(x, _) | TyExpr::Wrap(_, x) => shift_ty(x, pos),
+        TyExpr::Tuple(xs) => xs.iter_mut().for_each(|a| shift_ty(a, pos)),
+        TyExpr::Map(k, v, _) => {
+            shift_ty(k, pos);
+            shift_ty(v, pos);
+        }
+        TyExpr::Lib(_, args) => args.iter_mut().for_each(|a| shift_ty(a, pos)),
+        _ => (),
+    }
+}
+
+fn shift_def(td: &mut typegen::TypeDef, pos: usize) {
+    for f in td.all_fields_mut() {
+        shift_ty(&mut f.ty, pos);
+        if let Some(a) = &mut f.as_type {
+            shift_ty(a, pos);
+        }
+    }
+    for p in td.params.iter_mut() {
+        if let Some(d) = &mut p.default {
+            shift_ty(d, pos);
+        }
+        if let Some(d) = &mut p.concrete {
+            shift_ty(d, pos);
+        }
+    }
+    if let Some(a) = &mut td.attrs.as_type {
+        shift_ty(a, pos);
+    }
+    if let Body::Enum(vs) = &mut td.body {
+        for v in vs {
+            if let Some(a) = &mut v.as_type {
+                shift_ty(a, pos);
+            }
+        }
+    }
+}
+
+/// insert a definition at index `pos` (every reference >= pos moves up by one) and register it
+fn insert_type(m: &mut Module, pos: usize, mut td: typegen::TypeDef) {
+    for t in m.types.iter_mut() {
+        shift_def(t, pos);
+    }
+    for t in m.insts.iter_mut() {
+        shift_ty(t, pos);
+    }
+    shift_def(&mut td, pos);
+    m.types.insert(pos, td);
+    m.insts.push(TyExpr::User(pos, vec![]));
+}
+
+fn mentions_param_or_self(t: &TyExpr) -> bool {
+    match t {
+        TyExpr::Param(_) | TyExpr::SelfRef(_) => true,
+        TyExpr::User(_, args) | TyExpr::Lib(_, args) | TyExpr::Tuple(args) => args.iter().any(mentions_param_or_self),
+        TyExpr::Option(x) | TyExpr::Vec(x) | TyExpr::Array(x, _) | TyExpr::Wrap(_, x) => mentions_param_or_self(x),
+        TyExpr::Map(k, v, _) => mentions_param_or_self(k) || mentions_param_or_self(v),
+        _ => false,
+    }
+}
+
+/// (enum index, variant index) of the struct variant that gets `#[ts(as = "U")]`
+fn pick_variant(m: &Module) -> Option<(usize, usize)> {
+    for (ei, td) in m.types.iter().enumerate().rev() {
+        if !td.params.is_empty() || !td.lifetimes.is_empty() || !td.consts.is_empty() || td.attrs.type_override.is_some() || td.attrs.as_type.is_some() {
+            continue;
+        }
+        if let Body::Enum(vs) = &td.body {
+            for (vi, v) in vs.iter().enumerate().rev() {
+                if let typegen::VBody::Named(fs) = &v.body {
+                    if !fs.is_empty() && !v.skip && v.rename_all.is_none() && v.as_type.is_none() && !fs.iter().any(|f| mentions_param_or_self(&f.ty)) {
+                        return Some((ei, vi));
+                    }
+                }
+            }
+        }
+    }
+    None
+}
+
+/// `#[ts(as = "U")]` on a struct variant, U being a struct with the variant's fields (and the
+/// enum's `rename_all_fields` as its `rename_all`): the binding the variant would have if its
+/// Rust type were U
+fn make_variant_as_twin(n: &Module) -> Option<Module> {
+    let (ei, vi) = pick_variant(n)?;
+    let td = &n.types[ei];
+    let Body::Enum(vs) = &td.body else { return None };
+    let typegen::VBody::Named(fs) = &vs[vi].body else { return None };
+    let mut u = typegen::TypeDef {
+        ident: format!("{}{}AsTwin", td.ident.trim_start_matches("r#"), vs[vi].ident.trim_start_matches("r#")),
+        lifetimes: vec![],
+        consts: vec![],
+        const_first: false,
+        const_default: false,
+        params: vec![],
+        body: Body::Named(fs.clone()),
+        attrs: Default::default(),
+        docs: None,
+    };
+    u.attrs.rename_all = td.attrs.rename_all_fields;
+    let mut a = n.clone();
+    insert_type(&mut a, ei, u);
+    if let Body::Enum(vs) = &mut a.types[ei + 1].body {
+        vs[vi].as_type = Some(TyExpr::User(ei, vec![]));
+    }
+    Some(a)
+}
+
+/// the plain container that gets `#[ts(as = "U")]` (`as` excludes rename_all / tag / optional_fields)
+fn pick_container(m: &Module) -> Option<usize> {
+    for (i, td) in m.types.iter().enumerate().rev() {
+        let a = &td.attrs;
+        let plain = td.params.is_empty()
+            && td.lifetimes.is_empty()
+            && td.consts.is_empty()
+            && a.rename_all.is_none()
+            && a.rename_all_fields.is_none()
+            && a.tag.is_none()
+            && a.content.is_none()
+            && !a.untagged
+            && a.optional_fields.is_none()
+            && a.type_override.is_none()
+            && a.as_type.is_none();
+        if plain && !matches!(td.body, Body::Unit) && !td.all_fields().iter().any(|f| mentions_param_or_self(&f.ty)) {
+            return Some(i);
+        }
+    }
+    None
+}
+
+fn make_container_as_twin(n: &Module) -> Option<Module> {
+    let i = pick_container(n)?;
+    let mut u = n.types[i].clone();
+    u.ident = format!("{}AsTwin", u.ident.trim_start_matches("r#"));
+    u.attrs.rename = None;
+    u.attrs.export_to = None;
+    u.docs = None;
+    let mut a = n.clone();
+    insert_type(&mut a, i, u);
+    a.types[i + 1].attrs.as_type = Some(TyExpr::User(i, vec![]));
+    Some(a)
+}
 
 /// the `as` presentation of the field (ti, fi) of `n`: the field's user type is replaced by a
 /// structurally equal twin definition and `as` names the original type
@@ -169,13 +321,27 @@ fn make_as_twin(n: &Module, ti: usize, fi: usize) -> Option<Module> {
 
 /// the presentation twins of a module: name -> module
 pub fn twins(base: &Module) -> Vec<(&'static str, Module)> {
-    let Some((ti, fi)) = pick_field(base) else { return vec![] };
+    let mut extra = vec![];
+    if let Some(a) = make_variant_as_twin(base) {
+        extra.push(("variant-as", a));
+    }
+    if let Some(a) = make_container_as_twin(base) {
+        extra.push(("container-as", a));
+    }
+    let Some((ti, fi)) = pick_field(base) else {
+        if extra.is_empty() {
+            return vec![];
+        }
+        extra.insert(0, ("plain", base.clone()));
+        return extra;
+    };
     let set = |m: &mut Module, f: &dyn Fn(&mut typegen::Field)| {
         if let Body::Named(fs) = &mut m.types[ti].body {
             f(&mut fs[fi]);
         }
     };
-    let mut out = vec![];
+    let mut out = vec![("plain", base.clone())];
+    out.extend(extra);
     // by name
     let mut n = base.clone();
     set(&mut n, &|f| {
@@ -331,6 +497,31 @@ pub fn c14(ctx: &Ctx) -> ! {
         }
         for (bname, members) in &groups {
             let get = |kind: &str| members.iter().find(|(_, k)| *k == kind).and_then(|(n, _)| payload.get(n));
+            // (g) `as` on a struct variant / on a container
+            if let Some((pi, pd)) = get("plain") {
+                let pp = &corpus.modules[*pi];
+                let decl_at = |pl: &Value, m: &Module, idx: usize| -> Option<tsmodel::Decl> {
+                    let t = m.insts.iter().find(|t| matches!(t, TyExpr::User(i, _) if *i == idx))?;
+                    tsmodel::parse_module(pl[render::render_ty(t, m)].as_str()?).ok()?.decls.into_iter().next()
+                };
+                let p_env = env_of(pd);
+                for (kind, idx) in [("variant-as", pick_variant(&pp.module).map(|x| x.0)), ("container-as", pick_container(&pp.module))] {
+                    let (Some((ai, ad)), Some(idx)) = (get(kind), idx) else { continue };
+                    let ap = &corpus.modules[*ai];
+                    let (Some(pdecl), Some(adecl)) = (decl_at(pd, &pp.module, idx), decl_at(ad, &ap.module, idx + 1)) else { continue };
+                    out.evaluations += 1;
+                    out.bump(if kind == "variant-as" { "pairs_plain_vs_variant_as" } else { "pairs_plain_vs_container_as" }, 1);
+                    let a_env = env_of(ad);
+                    if let Some(d) = tsmodel::distinguish(&pdecl.body, &p_env, &adecl.body, &a_env, &[]) {
+                        out.take_failures(&[json!({"signature": format!("{kind}-changes-meaning"), "message": format!("{} is a member of the {} only: `#[ts(as = \"U\")]` with a structurally equal U must give the binding of U.\nplain:   {}\nwith as: {}", d.value, if d.in_left { "plain presentation" } else { "`as` presentation" }, tsmodel::show(&pdecl.body), tsmodel::show(&adecl.body)), "case": case_of(ap, json!({"plain_source": render::render_module(&pp.module)}))})], &known);
+                    } else {
+                        out.bump("equivalences_without_distinguishing_witness", 1);
+                        if distinct.insert(fnv(&format!("{kind}{bname}{}", render::render_module(&ap.module)))) {
+                            out.distinct_nontrivial += 1;
+                        }
+                    }
+                }
+            }
             let Some((ni, nd)) = get("byname") else { continue };
             let np = &corpus.modules[*ni];
             let Some((ti, fi)) = pick_field(&np.module) else { continue };
